@@ -42,18 +42,33 @@ def script? (w : String) : Option (Option (List Act)) :=
   else if w == "-" then some (some [])
   else ((w.splitOn ",").mapM act?).map some
 
+/-- errno values the op file may name (`e<n>`); EAGAIN has its own token -/
+def errnoOk (n : Nat) : Bool := n == 4 || n == 5 || n == 12 || n == 28 || n == 32 || n == 104 || n == 105
+
 def wans? (w : String) : Option WAns :=
   if w == "ea" then some .eagain
-  else if w == "er" then some .err
+  else if w == "er" then some (.err 32)
+  else if w.startsWith "e" then
+    match (w.drop 1).toString.toNat? with
+    | some n => if errnoOk n then some (.err n) else none
+    | none => none
   else if w.startsWith "a" then (w.drop 1).toString.toNat?.map .accept
   else none
 
+/-- `s:<answer>` = for the next write of `send()`, `c:<answer>` = for the next write of the
+write-ready callback, `<answer>` = for whichever write comes first -/
+def went? (w : String) : Option WEnt :=
+  if w.startsWith "s:" then (wans? (w.drop 2).toString).map fun a => ⟨some .send, a⟩
+  else if w.startsWith "c:" then (wans? (w.drop 2).toString).map fun a => ⟨some .cb, a⟩
+  else (wans? w).map fun a => ⟨none, a⟩
+
 def rans? (w : String) : Option RAns :=
   if w == "ea" then some .eagain
+  else if w == "ei" then some .eintr
   else if w == "er" then some .err
   else if w.startsWith "f" then
     match (w.drop 1).toString.toNat? with
-    | some d => if d ≤ 2 then some .fill else none
+    | some d => if d ≤ 1025 then some .fill else none
     | none => none
   else if w.startsWith "c" then
     match (w.drop 1).toString.toNat? with
@@ -83,7 +98,7 @@ def parseOp (ws : List String) : Option Op :=
   | ["disc"] => some .disconnect
   | ["feed", d] => (data? d).map .feed
   | ["peof"] => some .peof
-  | "kw" :: l => if l.isEmpty then none else (l.mapM wans?).map .kw
+  | "kw" :: l => if l.isEmpty then none else (l.mapM went?).map .kw
   | "kr" :: l => if l.isEmpty then none else (l.mapM rans?).map .kr
   | ["wmax", k] => k.toNat?.map .wmax
   | ["rmax", k] => k.toNat?.map fun _ => .nop
@@ -117,10 +132,12 @@ def branchTags (s : S) (op : Op) (s' : S) : List String :=
         if s.hasWr = false ∨ (s.conn ∧ s.expired) then ["send-refused"]
         else if s.st ≠ .running then ["send-before-enable"]
         else if s.sendQ ≠ [] then ["send-append"]
-        else (match popW s d.length with
+        else (match popW s .send d.length with
               | (.accept k, _) => if k < d.length then ["send-partial"] else ["send-direct"]
               | (.eagain, _) => ["send-eagain"]
-              | (.err, _) => ["send-error-drop"])
+              | (.err c, _) => if transientErr c then ["send-transient-queued"] ++ (if c = 4 then ["send-eintr"] else [])
+                               else ["send-error-refused"]) ++
+             (if s.wq.any (fun e => e.site == some .cb) ∧ (popAt .send s.wq).isSome then ["send-passes-cb-answer"] else [])
     | .enable => if s.st = .inited ∧ s.sendQ ≠ [] then ["enable-with-queued"] else []
     | .rd =>
         if s.readOn ∧ (s.pending ≠ [] ∨ s.eof) then
@@ -129,13 +146,21 @@ def branchTags (s : S) (op : Op) (s' : S) : List String :=
              (if s.recvQ ≠ [] then ["rd-with-leftover"] else []) ++
              (if s.rq.length - s'.rq.length ≥ 2 then ["rd-multi-chunk"] else []) ++
              (if s'.pending ≠ [] then ["rd-stopped-early"] else [])
-           else if s.pending = [] then ["rd-eof"] else ["rd-fault"])
+           else if s.pending = [] then ["rd-eof"] else ["rd-fault"]) ++
+          (match s.rq with | .eintr :: _ => ["rd-eintr"] | _ => []) ++
+          (if s'.got.length > s.got.length ∧ (s.rq.take (s.rq.length - s'.rq.length)).any (· == .eintr) then ["rd-eintr-midstream"] else [])
         else ["rd-idle"]
     | .wr =>
         if s.writeArmed then
           (if s.sendQ = [] then ["wr-complete"]
            else if s'.sendQ = [] then ["wr-drained"]
-           else if s'.sendQ.length < s.sendQ.length then ["wr-partial"] else ["wr-stalled"])
+           else if s'.sendQ.length < s.sendQ.length then ["wr-partial"] else ["wr-stalled"]) ++
+          (if s.sendQ = [] then [] else
+            (match popW s .cb s.sendQ.length with
+             | (.err c, _) => (if transientErr c then ["wr-error-transient"] else ["wr-error-lasting"]) ++ (if c = 4 then ["wr-eintr"] else [])
+             | (.eagain, _) => ["wr-eagain"]
+             | _ => []) ++
+            (if s.wq.any (fun e => e.site == some .send) ∧ (popAt .cb s.wq).isSome then ["wr-passes-send-answer"] else []))
         else ["wr-idle"]
     | .rw =>
         let r := s.readOn ∧ (s.pending ≠ [] ∨ s.eof)
@@ -146,7 +171,7 @@ def branchTags (s : S) (op : Op) (s' : S) : List String :=
     | _ => []
   let isPass : Bool := match op with | .rd | .rw => true | _ => false
   let closing : Bool := isPass && s.readOn && s.pending.isEmpty && s.eof && !s.recvQ.isEmpty &&
-    (match s.rq with | .eagain :: _ => false | .err :: _ => false | _ => true)
+    (match s.rq with | .eagain :: _ => false | .eintr :: _ => false | .err :: _ => false | _ => true)
   let t1 := t1 ++ (if closing then ["flush-at-close"] else [])
   let t2 := evs.filterMap fun e => match e with
     | .recv p k => some (if k = 0 then "consume-none" else if k < p.length then "consume-some" else "consume-all")
@@ -263,6 +288,21 @@ def parse (ws : List String) : Option Net.Op :=
   | ["nkstart"] => some .knStart
   | ["nkstop"] => some .knStop
   | ["nkcleanup"] => some .knCleanup
+  -- setReconnectDelayCalcFunc: seconds after the 1st, 2nd, … failure ("-": empty table), 1 beyond the table
+  | ["nkdelay", tbl] => do
+      if tbl == "-" then pure (.knDelay []) else
+      let ds ← (tbl.splitOn ",").mapM fun t => do
+        let d ← t.toNat?
+        if d ≤ 2147483647 then some d else none
+      if ds.length ≤ 4 then pure (.knDelay ds) else none
+  -- … a delay function that also calls stop() / cleanup() of the connector when it is asked about the k-th failure
+  | ["nkdelayact", tbl, k, act] => do
+      let ds ← if tbl == "-" then some [] else (tbl.splitOn ",").mapM fun t => do
+        let d ← t.toNat?
+        if d ≤ 2147483647 then some d else none
+      let k ← small? k 6
+      if ds.length > 4 ∨ k = 0 then none
+      else if act == "stop" then pure (.knDelayAct ds k false) else if act == "cleanup" then pure (.knDelayAct ds k true) else none
   | ["nkcb", w, sc] => do
       let sc ← nscript? "pc" sc
       if w == "fail" then pure (.knScript 0 sc) else if w == "conn" then pure (.knScript 1 sc) else none
@@ -303,11 +343,17 @@ def report (n n' : N) (r : Bool) : String :=
     let mine := evs.filterMap fun e => match e with | .cl i' l k => if i' = i then some (l, k) else none | _ => none
     let ls := (mine.map (·.1)).eraseDups
     let groups := ls.map fun l => showKinds (mine.filterMap fun (l', k) => if l' = l then some k else none)
-    " C" ++ toString i ++ ":" ++ toString (clNum (n'.client i).st) ++ "=" ++ (if groups.isEmpty then "-" else "|".intercalate groups)
+    -- getReceiveBuffer(): null unless connected; at rest the receive buffer is empty (the callbacks take everything)
+    " C" ++ toString i ++ ":" ++ toString (clNum (n'.client i).st) ++ (if (n'.client i).st = .connected then "b0" else "") ++
+      "=" ++ (if groups.isEmpty then "-" else "|".intercalate groups)
   let knEv := evs.filterMap fun e => match e with | .knConnected => some "C" | .knFailed => some "F" | _ => none
   "P ret=" ++ b01 r ++ " S" ++ toString (svNum n'.sv.st) ++ String.join svPart ++ String.join clPart ++
     " K" ++ toString (knNum n'.kn.st) ++ "=" ++ (if knEv.isEmpty then "-" else ",".intercalate knEv) ++
     " raw=" ++ digest n'.rawGot ++ (if n'.rawEof then "|eof" else "")
+
+/-- a token that was freed is used while a connection accepted after it is live (the cabinet hands freed slots out again) -/
+def staleNewer (n : N) (t : Nat) : List String :=
+  if t < n.sv.issued && n.sv.table.any (fun e => e.1 > t) then ["net-stale-after-newer"] else []
 
 def tags (n n' : N) (op : Net.Op) : List String :=
   let evs := n'.hist.drop n.hist.length
@@ -315,8 +361,11 @@ def tags (n n' : N) (op : Net.Op) : List String :=
   (match op with
     | .svStop => if n.sv.table.length ≥ 1 then ["net-svstop-live"] else []
     | .svCleanup => if n.sv.table.length ≥ 1 ∨ n.backlog ≠ [] then ["net-svcleanup-live"] else []
-    | .svSend t _ => if (svLookup n t).isNone then ["net-stale-token"] else []
-    | .svDisc t => if (svLookup n t).isNone then ["net-stale-token"] else ["net-svdisc"]
+    | .svSend t _ => if (svLookup n t).isNone then ["net-stale-token"] ++ staleNewer n t else []
+    | .svDisc t => if (svLookup n t).isNone then ["net-stale-token"] ++ staleNewer n t else ["net-svdisc"]
+    | .svValid t => if (svLookup n t).isNone then staleNewer n t else []
+    | .svShut t => if (svLookup n t).isNone then staleNewer n t else []
+    | .knDelay tbl => if tbl.isEmpty then [] else ["net-kndelay-set"] ++ (if n.kn.st == .delay then ["net-kndelay-set-in-delay"] else [])
     | .clStop i => ["net-clstop-" ++ toString (clNum (n.client i).st)]
     | .clSend i _ => if (n.client i).st ≠ .connected then ["net-clsend-unconnected"] else []
     | .adv _ => if (dueTimers { n with now := n'.now }).length ≥ 1 then ["net-retry-timer"] else []
@@ -327,6 +376,27 @@ def tags (n n' : N) (op : Net.Op) : List String :=
   (if has (fun e => e == .svStop) && (match op with | .svStop => false | .svCleanup => false | _ => true) then ["net-stop-in-callback"] else []) ++
   (if has (fun e => match e with | .clStart _ => true | _ => false) && (match op with | .clStart _ => false | _ => true) then ["net-reconnect"] else []) ++
   (if has (fun e => e == .knFailed) then ["net-connect-failed"] else []) ++
+  -- a connect that the kernel had completed (AF_UNIX: at once) was given up by stop() before the write event was served
+  (if (List.range (n'.links.length - n.links.length)).any (fun j =>
+        let l := n.links.length + j
+        match (n'.link l).who with
+        | .cl i => !(n'.link l).cOpen && !evs.contains (.cl i l .connected)
+        | _ => false) then ["net-stop-while-established"] else []) ++
+  (if [0, 1].any (fun i => (evs.filter fun e => match e with | .cl j _ .connected => j == i | _ => false).length ≥ 2) then ["net-reconnect-twice-in-op"] else []) ++
+  -- the listener was closed with a connection in its backlog whose connector had not served its write event yet: ECONNRESET
+  (if (List.range n'.links.length).any (fun l => (n'.link l).rst && !(n'.link l).cOpen && l ≥ n.links.length &&
+        !evs.any (fun e => match e with | .cl _ l' .connected => l' == l | _ => false) &&
+        (match (n'.link l).who with | .raw => false | _ => true)) then ["net-backlog-reset"] else []) ++
+  -- retries of the bare connector with a user delay table: armed with a custom delay / with delay 0 (fires in the next pass)
+  (let base := match op with | .knStart => 0 | _ => n.kn.fails
+   (if n'.kn.delays ≠ [] ∧ n'.kn.fails > base ∧ n'.kn.st == .delay then ["net-kndelay-armed"] else []) ++
+   (match n.kn.dAct with
+    | some (k, cl) =>
+        let quietOp := !has (fun e => e == .knFailed || e == .knConnected) && (match op with | .knCleanup => false | .knStop => false | _ => true)
+        if !cl && quietOp && n'.kn.fails == k && k > base && n'.kn.st == .inited then ["net-delayfunc-stop"]
+        else if cl && quietOp && n.kn.st != .none && n'.kn.st == .none then ["net-delayfunc-cleanup"] else []
+    | none => []) ++
+   (if (List.range n'.kn.fails).any (fun j => j + 1 > base && n'.kn.delayOf (j + 1) == 0) then ["net-retry-zero-delay"] else [])) ++
   (if n'.sockFail < n.sockFail then ["net-socket-fail"] else []) ++
   (if n'.acceptFail < n.acceptFail then ["net-accept-fail"] else []) ++
   (if n'.lateFail < n.lateFail then ["net-late-fail"] else []) ++
